@@ -196,6 +196,21 @@ def step (st : St) (ws : List String) : St × String :=
       | none => ({ st with bad := true }, "unsafe")
     | _ => (st, "bad-hint")
   | ["cw", _] => stepList st op
+  | ["ckptrace", id] =>
+    -- `DB.Checkpoint` with a flush commit parked at its hook; the implementation says whether the commit landed inside
+    -- the call (at a log record): in the model it then comes first, the capture sees the new level list
+    if listBlocked st hint then (st, "blocked") else
+    match hint with
+    | ["captured", "commit-first", n] =>
+      let cnt := (st.s.db.flushing.getD []).length
+      match stepM st .flushCommit with
+      | some st1 =>
+        let st2 := { st1 with flushQ := st1.flushQ - 1, compactQ := st1.compactQ + 1 }
+        match stepM st2 (.checkpoint (natOr id)) with
+        | some st3 => (st3, "captured commit-first " ++ toString cnt)
+        | none => (st2, "disabled")
+      | none => ({ st with bad := true }, "disabled " ++ n)
+    | _ => stepList st ["ckpt", id]
   | ["ckpt", _] | ["cd", _] | ["retain", _] | ["hcd", _] | ["hretain", _] | ["hretaind", _] =>
     if listBlocked st hint then (st, "blocked") else stepList st op
   | ["probe"] =>
